@@ -332,6 +332,13 @@ pub fn run(tier: &str, rec: &Recorder) -> RunOutput {
         fill_e1_coverage(&mut out, &r, &p);
         ex &= !r.capped;
     }
+    {
+        let mut c = Counters::default();
+        crate::large::c09_large(tier, rec, &mut c);
+        for (k, v) in &c.0 {
+            out.add(k, *v);
+        }
+    }
     out.set("exhaustive", ex);
     out.set("stages", serde_json::Value::Array(notes));
     out.set("traces_validated_against_impl", out.get("states_checked"));
